@@ -59,6 +59,100 @@ def schema_object_literals(fn):
     return out
 
 
+def name_keyed_dict_rule(fam, mod, rep, rid):
+    """Type names are user-chosen identifiers: `toString`, `constructor`, `hasOwnProperty` are legal type names.  A
+    plain object literal used as a dictionary answers those names from Object.prototype (`d[name]` is a function,
+    `name in d` is true), so 'is this reference being printed', 'is this definition collected', 'how often is it
+    referenced' get the wrong answer for such a type: schema() prints {}, schemaWithContext leaves a dangling $ref.
+    Decided: every dictionary that is indexed (`d[k]`, `k in d`) with a key that is a type name - this.refName in the
+    reference classes, the `name` parameter of the printing context - is created without a prototype
+    (`Object.create(null)`, directly or through a helper), at every place where it is created."""
+    def null_proto(e, depth=0):
+        e = unparen(e)
+        if e.get("type") == "CallExpression":
+            if s(e["callee"]) == "Object.create" and e["arguments"] and s(e["arguments"][0]["expression"]) == "null":
+                return True
+            cal = unparen(e["callee"])
+            if cal.get("type") == "Identifier" and depth < 2:
+                tgt = mod.functions.get(cal["value"]) or (mod.vars.get(cal["value"]) or (None, None, None))[1]
+                if tgt is not None and tgt.get("type") in ("ArrowFunctionExpression", "FunctionExpression", "FunctionDeclaration"):
+                    b = tgt.get("body")
+                    if b is not None and b.get("type") != "BlockStatement":
+                        return null_proto(b, depth + 1)
+                    rets = [r for r in walk(b) if r["type"] == "ReturnStatement"] if b else []
+                    if len(rets) == 1 and rets[0].get("argument") is not None:
+                        ra = unparen(rets[0]["argument"])
+                        if ra.get("type") == "Identifier":
+                            inits = [d_["init"] for d_ in walk(b) if d_["type"] == "VariableDeclarator" and d_["id"].get("value") == ra["value"] and d_.get("init") is not None]
+                            reassigned = any(a_["type"] == "AssignmentExpression" and s(a_["left"]) == ra["value"] for a_ in walk(b))
+                            return len(inits) == 1 and not reassigned and null_proto(inits[0], depth + 1)
+                        return null_proto(ra, depth + 1)
+                    return False
+        if e.get("type") == "NewExpression" and s(e["callee"]) in ("Map", "Set"):
+            return True
+        return False
+    # 1. dictionaries indexed by a type name
+    dicts = {}   # rendering of the dictionary expression -> first site
+    for cname, c in sorted(mod.classes.items()):
+        is_ref = cname in fam.classes and ("refName" in fam.all_fields(cname))
+        is_ctxcls = any(tsast.type_str((fld.get("typeAnnotation") or {}).get("typeAnnotation")).startswith("Record<string,") for fld in c.fields.values())
+        for mname, m in c.methods.items():
+            fn = m["function"]
+            if fn.get("body") is None:
+                continue
+            al = ts_common.local_aliases(fn)
+            ps = ts_common.fn_params(fn)
+
+            def is_name(e):
+                e = unparen(e)
+                if is_ref and ts_common.expr_mentions_this_field(e, {"refName"}, al):
+                    return True
+                # the printing context's methods take the type name as a string parameter
+                if e.get("type") == "Identifier" and e["value"] in ps and not is_ref and is_ctxcls:
+                    for p_ in fn["params"]:
+                        pat = p_.get("pat", p_)
+                        if pat.get("value") == e["value"] and tsast.type_str((pat.get("typeAnnotation") or {}).get("typeAnnotation")) == "string":
+                            return True
+                return False
+            for n in walk(fn):
+                d = None
+                if n["type"] == "MemberExpression" and n["property"]["type"] == "Computed" and is_name(n["property"]["expression"]):
+                    d = n["object"]
+                elif n["type"] == "BinaryExpression" and n["operator"] == "in" and is_name(n["left"]):
+                    d = n["right"]
+                if d is None:
+                    continue
+                d = unparen(d)
+                if d.get("type") == "CallExpression":
+                    continue     # a table handed over by generated code (own properties for every defined name)
+                dicts.setdefault(s(d), mod.loc(n))
+    # 2. every creation site of those dictionaries
+    n_sites = 0
+    for dtxt, first in sorted(dicts.items()):
+        prop = dtxt.rsplit(".", 1)[-1]
+        created = []
+        if dtxt.startswith("this."):
+            for cname, c in mod.classes.items():
+                if prop in c.ctor_assignments():
+                    created.append((c.ctor_assignments()[prop], "%s constructor" % cname))
+                fld = c.fields.get(prop)
+                if fld is not None and fld.get("value") is not None:
+                    created.append((fld["value"], "%s field initialiser" % cname))
+        else:
+            for o in walk(mod.module):
+                if o["type"] == "ObjectExpression":
+                    for p_ in o["properties"]:
+                        if p_["type"] == "KeyValueProperty" and tsast.prop_key(p_["key"]) == prop:
+                            created.append((p_["value"], "object literal at %s" % mod.loc(o)))
+        rep.ob(rid, "dict/%s/created-somewhere" % dtxt, bool(created), "%s is indexed with a type name (%s) but no place where it is created was found" % (dtxt, first), first)
+        for e, where in created:
+            n_sites += 1
+            rep.ob(rid, "dict/%s" % dtxt, null_proto(e),
+                   "%s is indexed with a type name (%s) and created as `%s` (%s): for a type called `toString` / `constructor` the lookup answers from Object.prototype" % (dtxt, first, s(e)[:40], where),
+                   mod.loc(e), sample={"dictionary": dtxt, "created_as": s(e)[:40]})
+    rep.floor(rid, "creation sites of name-keyed dictionaries", n_sites, 6)
+
+
 def merge_required_rule(mod, rep, rid):
     """A function that folds several object schemas into one (the allOf merge) must carry over the whole `required`
     list of every member: the validator of an intersection demands every member's required keys.  Located by role: a
@@ -269,6 +363,29 @@ def run(cx, rep):
                    "%s.schema returns `%s` for a type with an index signature without using the index-signature schemas: the key constraint (propertyNames) is lost, so documents with keys the validator rejects are valid against the schema" % (cname, s(r["argument"])[:80]),
                    mod.loc(r), sample={"class": cname, "return": s(r["argument"])[:80]})
         rep.floor("C02.5", "index-signature returns of %s.schema" % cname, n_ret, 2)
+    # ---------------------------------------------------------------- C02.9
+    rep.rule("C02.9", "computed text is never used as a String.replace replacement pattern")
+    # `s.replace(x, r)` with a STRING r interprets `$$`, `$&`, `$1`..; `$` is legal in TypeScript identifiers, so a
+    # type name used as r changes ($$ -> $) and the $ref no longer matches the key its definition is stored under.
+    n_rep = 0
+    for label, fn in [(k, v) for k, v in mod.functions.items()] + [("%s.%s" % (cn, mn), mm["function"]) for cn, c in mod.classes.items() for mn, mm in c.methods.items()]:
+        if fn.get("body") is None:
+            continue
+        for n in walk(fn):
+            mc = method_call(n) if n["type"] == "CallExpression" else None
+            if not mc or mc[1] not in ("replace", "replaceAll") or len(mc[2]) != 2:
+                continue
+            r = unparen(mc[2][1])
+            n_rep += 1
+            literal = r.get("type") == "StringLiteral" or (r.get("type") == "TemplateLiteral" and not r.get("expressions"))
+            fnrep = r.get("type") in ("ArrowFunctionExpression", "FunctionExpression")
+            rep.ob("C02.9", "%s/replace" % label, literal or fnrep,
+                   "%s passes the computed string `%s` as the replacement of String.replace: `$$` / `$&` inside it are interpreted, so a name containing `$` comes out changed" % (label, s(r)[:40]),
+                   mod.loc(n), sample={"fn": label, "replacement": "literal" if literal else "function"})
+    rep.floor("C02.9", "String.replace calls in the runtime", n_rep, 2)
+    # ---------------------------------------------------------------- C02.8
+    rep.rule("C02.8", "dictionaries keyed by type names have no prototype")
+    name_keyed_dict_rule(fam, mod, rep, "C02.8")
     # ---------------------------------------------------------------- C02.7
     rep.rule("C02.7", "every call from the parser facade into a validator gets a context created in that call")
     # The per-call contexts carry scratch state (`path`, the `seen` marks of references being printed) that the
